@@ -9,6 +9,10 @@ static void init_fn (void) { runs++; vf_yield (); done = 1; }
 static void init_fn_arg (void *a) { (void) a; runs++; vf_yield (); done = 1; }
 static void init_b (void) { runs_b++; vf_yield (); done_b = 1; }
 
+/* the init function of onces[0] itself runs another once (onces[64]) that shares the internal lock/cv slot: completing the
+   inner once broadcasts on the shared cv while the outer one is still running */
+static void init_nested (void) { runs++; nsync_run_once (&onces[64], &init_b); vf_yield (); done = 1; }
+void caller_nested (void) { nsync_run_once (&onces[0], &init_nested); vf_assert (done == 1 && runs == 1); }
 void caller_block (void) { nsync_run_once (&onces[0], &init_fn); vf_assert (done == 1 && runs == 1); }
 void caller_arg (void) { nsync_run_once_arg (&onces[0], &init_fn_arg, 0); vf_assert (done == 1 && runs == 1); }
 void caller_spin (void) { nsync_run_once_spin (&onces[0], &init_fn); vf_assert (done == 1 && runs == 1); }
